@@ -32,7 +32,7 @@ COMPONENTS = {
 }
 ASSUMPTIONS = [
     "canonical run = C-contiguous float64 copy with the faulty samples set to 0.0 in the same world and thread configuration: equality is bitwise",
-    "finiteness is checked for |x| <= ~1e9 (overflow of intermediate products beyond ~1e77 is not examined); dB views and error bars at zero coherence are not demanded",
+    "finiteness is demanded for every finite input, including amplitudes up to 1e300 whose squares overflow (the library's documented clean-up turns overflowed statistics into 0); dB views and error bars at zero coherence are not demanded",
     "N x 1 / 1 x N / 2 x 2 inputs are not generated (not listed by the statement / ambiguous)",
 ]
 
@@ -69,6 +69,12 @@ def generate(seed, tier):
     channels = rw.choice([1, 2, 2])
     data = SC.gen_data_spec(rw, N, channels, recipes=SC.RECIPES + ["zeros", "const", "identical", "scaled_copy"])
     data["scale"] = rw.choice([1.0, 1.0, 1e-3, 1e3, 1e6])
+    amp_band = None
+    if rw.random() < 0.06:      # "any finite input": amplitudes whose squares / fourth powers overflow float64
+        amp_band = "overflow"
+        data["recipe"] = rw.choice(["noise", "noise", "sine+noise", "multisine"])
+        data["scale"] = rw.choice([1e-80, 1e80, 1e120, 1e160, 1e200, 1e250])
+        data["offset"] = 0.0
     cfg = SC.gen_config(rw, N, backends=(W.backend_of({"world": world}),), allow_custom=True)
     if sim:
         cfg["Jdes"] = min(cfg["Jdes"], 8)
@@ -118,8 +124,10 @@ def generate(seed, tier):
             ops.append(["single", round(rw.uniform(0, 0.5), 5), rw.randrange(1, min(N, 40 if sim else N) + 1)])
         else:
             ops.append(["construct2"])
+    if amp_band:
+        dtype = "f8" if dtype not in ("f8", ">f8", "longdouble") else dtype
     return {"world": W.gen_world(rf, world, 6), "data": data, "cfg": cfg, "layout": layout, "dtype": dtype, "faults": faults,
-            "ops": ops, "clock": CK.gen_clock(R.stream(seed, "clock"), p_none=0.5)}
+            "amp_band": amp_band, "ops": ops, "clock": CK.gen_clock(R.stream(seed, "clock"), p_none=0.5)}
 
 
 # --------------------------------------------------------------------------
@@ -372,7 +380,9 @@ def _check_finite(res, sc, out, where):
             v = np.asarray(v)
             if not np.all(np.isfinite(v)):
                 j = int(np.nonzero(~np.isfinite(v))[0][0])
-                out.violate("non_finite_value", n, f"{where}: {n}[{j}]={v[j]!r} for a finite input (recipe {sc['data']['recipe']}, order {sc['cfg']['order']})")
+                band = sc.get("amp_band")
+                cls = "non_finite_value" if band in (None, "overflow") else f"non_finite_value:{band}"
+                out.violate(cls, n, f"{where}: {n}[{j}]={v[j]!r} for a finite input (recipe {sc['data']['recipe']}, scale {sc['data']['scale']:g}, order {sc['cfg']['order']})")
         coh = np.asarray(res.coh) if iscsd else np.ones(len(res.f))
         pos = coh > 0
         for n in (ERR_NAMES_CROSS if iscsd else ERR_NAMES_AUTO):
@@ -385,7 +395,8 @@ def _check_finite(res, sc, out, where):
                 continue
             v = np.asarray(v)
             if v.shape == pos.shape and not np.all(np.isfinite(v[pos])):
-                out.violate("non_finite_error_bar", n, f"{where}: {n} is not finite at a bin with positive coherence (recipe {sc['data']['recipe']})")
+                band = sc.get("amp_band")
+                out.violate("non_finite_error_bar" if band in (None, "overflow") else f"non_finite_error_bar:{band}", n, f"{where}: {n} is not finite at a bin with positive coherence (recipe {sc['data']['recipe']})")
     out.count("oracle_finite")
 
 
